@@ -30,7 +30,7 @@ def run(out, info, tier, seed):
         'theorem premise static_ok (shape facts + ancestors closure dominates every trigger path) is discharged per scenario by the table comparison, not yet by a closure theorem']
     out.assumptions = ['simulators are an oracle: any reply sequence (event list); delays compared have equal shape (convex group scenarios)']
     sched_check.sched_property(out, info, tier, seed, 'C01', KINDS, monitors.P_C01, gen_opts=dict(groups=True),
-                               case_gen=lambda rng, k: gen.gen_parallel_case(rng, clean=False) if k % 5 == 4 else gen.gen_case(rng, groups=True),
+                               case_gen=lambda rng, k: gen.gen_parallel_case(rng, clean=False) if k % 5 == 4 else gen.gen_nested_case(rng) if k % 5 == 2 else gen.gen_case(rng, groups=True),
                                ncases=(110, 1500), nontrivial=nontrivial, features=features,
                                extra_obligations=[('Sched.Inv (invariant preserved by every event)', 'Sched/Inv'),
                                                   ('Sched.Main (lifting to runs from the initial state)', 'Sched/Main')])
